@@ -237,6 +237,9 @@ func c09Lib(c *Ctx, variant string) {
 		s.Violate("C09|frame-corrupt|"+variant, "%d framing problems on the wire, e.g. %s", len(problems), joinProblems(problems))
 	}
 	for _, e := range s.LibEvents() {
+		if strings.Contains(e, "http.ResponseWriter used after the handler returned") {
+			s.Violate("C09|write-after-handler-return|"+variant, "a frame writer touched the stream after (or while) its HTTP handler returned - net/http has recycled the buffer by then, the bytes are lost or land in another response: %s", e)
+		}
 		if strings.Contains(e, "concurrent use of http.ResponseWriter") {
 			s.Violate("C09|concurrent-writer-use|"+variant, "two writers were inside Write/Flush of one stream at once (frames tear in a real net/http server): %s", e)
 		}
